@@ -744,14 +744,16 @@ func Stack[V any](arguments ...any) col.StackLike[V] {
 	case sequence != nil:
 		stack = class.MakeFromSequence(sequence)
 	case len(source) > 0:
-		stack = class.Make()
 		var collection = notation.ParseSource(source).(col.Sequential[any])
-		// Convert the values to their real type.
+		// Convert the values to their real type.  NOTE: The first value is the
+		// top of the stack, just as it is for a stack parsed from the source.
+		var array = make([]V, 0, collection.GetSize())
 		var iterator = collection.GetIterator()
 		for iterator.HasNext() {
 			var value = iterator.GetNext().(V)
-			stack.AddValue(value)
+			array = append(array, value)
 		}
+		stack = class.MakeFromArray(array)
 	default:
 		stack = class.Make()
 	}
